@@ -625,3 +625,47 @@ func Skeleton(pat string) (string, error) {
 	}
 	return render(re), nil
 }
+
+// Words lists every word d accepts, if the language is finite, has at most limit words and every rune class on an
+// accepting path holds a single rune (so that the listing is the language itself, not a sample of it).
+func (s *Space) Words(d *D, limit int) ([]string, bool) {
+	live := d.live()
+	var out []string
+	onPath := map[int]bool{}
+	ok := true
+	var walk func(st int, path []rune)
+	walk = func(st int, path []rune) {
+		if !ok {
+			return
+		}
+		if onPath[st] {
+			ok = false // a cycle through a live state: infinitely many words
+			return
+		}
+		if d.Accept[st] {
+			out = append(out, string(path))
+			if len(out) > limit {
+				ok = false
+				return
+			}
+		}
+		onPath[st] = true
+		for c := range s.lo {
+			ns := d.Trans[st][c]
+			if !live[ns] {
+				continue
+			}
+			if s.Weight[c] != 1 {
+				ok = false
+				break
+			}
+			walk(ns, append(append([]rune{}, path...), s.lo[c]))
+		}
+		onPath[st] = false
+	}
+	if live[0] {
+		walk(0, nil)
+	}
+	sort.Strings(out)
+	return out, ok
+}
